@@ -46,7 +46,20 @@ SCOPES = {
     "C20-f": (("font_types", "read_fonts", "skrifa", "incremental_font_transfer"), ARITH,
               "font-types / read-fonts / skrifa / incremental-font-transfer: overflow-checked arithmetic, negation, "
               "shifts, abs/pow and debug assertions"),
+    # the sfnt container writer: FontBuilder::build is infallible (no error channel), so every site that can panic in it or
+    # in the directory arithmetic it calls breaks "for any set of tagged blobs the assembled font opens"
+    "C06-i": (("write_fonts",), ALWAYS + ARITH,
+              "the sfnt container writer (write-fonts font_builder.rs, util.rs): indexing, slicing, split/copy, division and "
+              "overflow-checked arithmetic sites", r"write-fonts/src/(font_builder|util)\.rs$"),
+    "C06-j": (("write_fonts",), LOOPS,
+              "the sfnt container writer (write-fonts font_builder.rs, util.rs): natural loops (termination pacing)",
+              r"write-fonts/src/(font_builder|util)\.rs$"),
 }
+
+
+def scope_of(rid):
+    sc = SCOPES[rid]
+    return sc[0], sc[1], sc[2], (re.compile(sc[3]) if len(sc) > 3 else None)
 
 
 def norm_fn(path):
@@ -97,11 +110,16 @@ def classify_kind(site):
 USE_ARGSUM = os.environ.get("FV_NO_ARGSUM") is None
 
 
-def collect(facts, crates, kinds):
-    """-> (sites, n_functions): every site of the requested kinds in hand-written code of `crates`"""
+def collect(facts, crates, kinds, files=None):
+    """-> (sites, n_functions): every site of the requested kinds in hand-written code of `crates` (restricted to the files
+    matching `files`, if given)"""
     if kinds == LOOPS:
         from ..loops import collect_loops
-        return collect_loops(facts, crates)
+        ss, nfn = collect_loops(facts, crates)
+        if files is not None:
+            ss = [x for x in ss if files.search(x["body"].file)]
+            nfn = len({x["body"].path for x in ss})
+        return ss, nfn
     from ..intervals import register_adts
     from .. import counters
     from .. import fieldinv
@@ -122,7 +140,7 @@ def collect(facts, crates, kinds):
             if c not in facts.crates:
                 continue
             for b in facts.all_bodies(c):
-                if b.generated or CORE_RE.search(b.file):
+                if b.generated or CORE_RE.search(b.file) or (files is not None and not files.search(b.file)):
                     continue
                 nfn += 1
                 res = check_zone([b], keep_iv=True, iv_of=asum.iv_of if asum is not None else None)
@@ -304,8 +322,8 @@ def load_baseline():
 
 
 def census(facts, rid, cfg):
-    crates, kinds, _ = SCOPES[rid]
-    sites, nfn = collect(facts, crates, kinds)
+    crates, kinds, _, files = scope_of(rid)
+    sites, nfn = collect(facts, crates, kinds, files)
     groups = {}
     n_ok = 0
     for s in sites:
@@ -318,7 +336,7 @@ def census(facts, rid, cfg):
 
 
 def run_sites(chk, facts, rid, cfg):
-    crates, kinds, what = SCOPES[rid]
+    crates, kinds, what, _files = scope_of(rid)
     if kinds == LOOPS:
         chk.rule(rid, f"T-LOOP census: {what}: every natural loop is paced (each trip advances a finite / caller-supplied / "
                       f"repo-defined iterator, or moves a counter by a constant towards a loop-invariant bound that ends the "
